@@ -148,7 +148,7 @@ func mayReturn(h *ssa.Function, idx int, isErr, p bool, cut map[an.Edge]bool) bo
 			continue
 		}
 		var vals []ssa.Value
-		expandPhis(ret.Results[idx], exec, map[ssa.Value]bool{}, &vals)
+		expandPhis(an.RetVal(ret, idx), exec, map[ssa.Value]bool{}, &vals)
 		for _, v := range vals {
 			if isErr {
 				if !knownNonNilError(v) {
@@ -292,7 +292,7 @@ func (c *Ctx) hsGuards(mk *ssa.Function, tr *an.Tracer) (out []hsGuard, nbranche
 					continue
 				}
 				var vals []ssa.Value
-				expandPhis(ret.Results[idx], exec, map[ssa.Value]bool{}, &vals)
+				expandPhis(an.RetVal(ret, idx), exec, map[ssa.Value]bool{}, &vals)
 				for _, v := range vals {
 					if k, ok := v.(*ssa.Const); ok && k.Value != nil {
 						if (k.Value.String() == "true") == p {
@@ -575,7 +575,7 @@ func c07(c *Ctx) {
 		var rets []ssa.Instruction
 		for _, b := range hf.Blocks {
 			for _, in := range b.Instrs {
-				if ret, ok := in.(*ssa.Return); ok && len(ret.Results) == 2 && !an.IsNilConst(ret.Results[0]) {
+				if ret, ok := in.(*ssa.Return); ok && len(ret.Results) == 2 && !an.IsNilConst(an.RetVal(ret, 0)) {
 					rets = append(rets, ret)
 				}
 			}
@@ -692,6 +692,24 @@ func c07Decrypt(c *Ctx, mk *ssa.Function, tr *an.Tracer) {
 			}
 		}
 	}
+	// "abandoned with an error": a recover() on the exchange path must not turn the panic into a normal return
+	// with the results as they stand (a nil error) - the deferred function has to store a non-nil error into the
+	// function's result on the way out of the recovered panic
+	if cc := c.P.Func(load.RootMod, "*MTProto", "CreateConnection"); cc != nil {
+		nrec := 0
+		for _, f := range c.censusRegion([]*ssa.Function{cc}, nil) {
+			if f.Recover == nil {
+				continue
+			}
+			ok, why := recoverReportsError(f)
+			if why == "no recover" {
+				continue // a function with defer statements, none of which recovers
+			}
+			nrec++
+			r.Check(ok, "R07.P", "recover-reports-error:"+an.ShortName(f), c.pos(f.Pos()), "a recovered panic leaves "+f.Name()+" through a non-nil error; "+why)
+		}
+		r.Extra["recover_sites_on_exchange_path"] = nrec
+	}
 	if len(r.Obls) > 0 {
 		// make sure the rule has at least one instance even when clean
 		n := 0
@@ -744,4 +762,68 @@ func c07Writers(c *Ctx) {
 	if nEnc == 0 || nSave == 0 || nStore == 0 {
 		r.Undecide("R07.W", "writers", "", sprintf("expected writers not found (encrypted stores %d, SaveSession calls %d, Store calls %d)", nEnc, nSave, nStore))
 	}
+}
+
+// recoverReportsError: every deferred function literal of f that calls recover() stores, on each path that
+// follows a non-nil recover() result, a certainly non-nil error through a captured variable of type error (the
+// function's named result).
+func recoverReportsError(f *ssa.Function) (bool, string) {
+	found := false
+	for _, g := range f.AnonFuncs {
+		var rc *ssa.Call
+		for _, cs := range an.Calls(g) {
+			if cs.Name == "builtin:recover" {
+				if call, ok := cs.Instr.(*ssa.Call); ok {
+					rc = call
+				}
+			}
+		}
+		if rc == nil {
+			continue
+		}
+		found = true
+		var test *an.Cond
+		for _, i := range an.Ifs(g) {
+			cd, ok := an.Classify(i)
+			if ok && cd.Kind == "nil" && cd.X == ssa.Value(rc) {
+				test = cd
+			}
+		}
+		if test == nil {
+			return false, "the result of recover() is not tested: the panic is swallowed unconditionally"
+		}
+		cut := map[an.Edge]bool{}
+		good := map[*ssa.BasicBlock]bool{}
+		for _, b := range g.Blocks {
+			for _, in := range b.Instrs {
+				st, ok := in.(*ssa.Store)
+				if !ok {
+					continue
+				}
+				fv, ok := st.Addr.(*ssa.FreeVar)
+				if !ok {
+					continue
+				}
+				if pt, ok := fv.Type().Underlying().(*types.Pointer); !ok || pt.Elem().String() != "error" {
+					continue
+				}
+				if an.NonNilError(st.Val, b) {
+					good[b] = true
+					for k := range b.Succs {
+						cut[an.Edge{From: b, Succ: k}] = true
+					}
+				}
+			}
+		}
+		reach := an.ReachFrom(g, test.EdgeWhen(false), cut)
+		for _, b := range g.Blocks {
+			if _, isRet := b.Instrs[len(b.Instrs)-1].(*ssa.Return); isRet && reach[b] && !good[b] {
+				return false, "after a recovered panic the deferred function returns without storing an error into the result (a `err :=` inside the closure declares a new variable)"
+			}
+		}
+	}
+	if !found {
+		return true, "no recover"
+	}
+	return true, ""
 }
